@@ -4,6 +4,11 @@ use mcx::{Report, Tier};
 use serde_json::json;
 
 mod io_common;
+mod types;
+mod c01;
+mod c03;
+mod c05;
+mod c12;
 mod c14;
 mod c15;
 mod c16;
@@ -96,6 +101,10 @@ fn main() {
     }
     let r = Report::new(&id, tier);
     match id.as_str() {
+        "C01" => c01::run(&r),
+        "C03" => c03::run(&r),
+        "C05" => c05::run(&r),
+        "C12" => c12::run(&r),
         "C14" => c14::run(&r),
         "C15" => c15::run(&r),
         "C16" => c16::run(&r),
